@@ -4,6 +4,12 @@
      L <cps>                       PlainEnglish.parse            -> "O tok tok ..." | "P"
      D <cps>                       Document::new_plain_english   -> "O tok tok ..." | "P"
      T <cps> | tok tok ...         Document::parse passes on a given token vector (fake parser)
+     I <cps> | tok tok ... | w ; w ; ...   IsolateEnglish::parse over a fake inner parser returning the tokens; the
+                                   words (code points) after the second bar are the queries the real dictionary
+                                   answered `true` to (contains_word), recorded by the harness
+     C <cps> | tok tok ... | w ; w ; ...   CollapseIdentifiers::parse, likewise
+     J <cps> | w ; w ; ...         Document::new(text, IsolateEnglish(PlainEnglish))       (document_plain_ie)
+     K <cps> | w ; w ; ...         Document::new(text, CollapseIdentifiers(PlainEnglish))  (document_plain_ci)
    token (output) = start,end,KIND with KIND one of
      W | P:<VariantName> | P:Quote:<twin|-> | P:Currency:<Name> | D | N:<f64 bits hex>:<radix>:<precision>:<Suffix|->
      | S:<n> | NL:<n> | E | U | H | X | PB | R
@@ -87,6 +93,13 @@ let tok_of_str (s : string) : token =
   | [a; b; k] -> { tspan = { sstart = nat_of_int (int_of_string a); send = nat_of_int (int_of_string b) }; tkind_of = kind_of_str k }
   | _ -> failwith ("bad token " ^ s)
 
+(* "w ; w ; ..." with w = code points; the empty word is written `e` *)
+let known_of_str (s : string) : n list list =
+  List.filter_map (fun w ->
+      let w = String.trim w in
+      if w = "" then None else if w = "e" then Some [] else Some (text_of_line w))
+    (String.split_on_char ';' s)
+
 let () =
   iter_lines (fun l ->
     if String.length l = 0 then print_newline () else
@@ -109,5 +122,18 @@ let () =
          | [src; toks] ->
              let ts = List.map tok_of_str (List.filter (fun w -> w <> "") (String.split_on_char ' ' toks)) in
              print_res (document_passes (text_of_line src) ts)
+         | _ -> print_endline "?")
+    | 'I' | 'C' ->
+        (match split_bar body with
+         | [src; toks; known] ->
+             let ts = List.map tok_of_str (List.filter (fun w -> w <> "") (String.split_on_char ' ' toks)) in
+             let dict = dict_of (known_of_str known) in
+             print_res ((if l.[0] = 'I' then isolate_english else collapse_identifiers) dict (text_of_line src) ts)
+         | _ -> print_endline "?")
+    | 'J' | 'K' ->
+        (match split_bar body with
+         | [src; known] ->
+             let dict = dict_of (known_of_str known) in
+             print_res ((if l.[0] = 'J' then document_plain_ie else document_plain_ci) (uni_now ()) dict (text_of_line src))
          | _ -> print_endline "?")
     | _ -> print_endline "?")
